@@ -141,19 +141,30 @@ func (f *File) Descriptor() *descriptorpb.FileDescriptorProto {
 	if gp != "" {
 		fdp.Options = &descriptorpb.FileOptions{GoPackage: s(gp)}
 	}
+	nestedEnums := map[string][]*descriptorpb.EnumDescriptorProto{}
 	for _, e := range f.Enums {
-		ed := &descriptorpb.EnumDescriptorProto{Name: s(e.Name)}
+		ed := &descriptorpb.EnumDescriptorProto{Name: s(strings.TrimPrefix(e.Name, e.Parent+"_"))}
+		if e.Parent == "" {
+			ed.Name = s(e.Name)
+		}
 		for i := range e.Names {
 			ed.Value = append(ed.Value, &descriptorpb.EnumValueDescriptorProto{Name: s(e.Names[i]), Number: i32(e.Values[i])})
 		}
-		fdp.EnumType = append(fdp.EnumType, ed)
+		if e.Parent == "" {
+			fdp.EnumType = append(fdp.EnumType, ed)
+		} else {
+			nestedEnums[e.Parent] = append(nestedEnums[e.Parent], ed)
+		}
 	}
+	built := map[string]*descriptorpb.DescriptorProto{}
 	pkgDot := "."
 	if f.Package != "" {
 		pkgDot = "." + f.Package + "."
 	}
 	for _, m := range f.Messages {
-		md := &descriptorpb.DescriptorProto{Name: s(m.Name), Options: msgOpts(m.Always, m.Capture)}
+		md := &descriptorpb.DescriptorProto{Name: s(m.ProtoName()), Options: msgOpts(m.Always, m.Capture)}
+		md.EnumType = nestedEnums[m.Name]
+		built[m.Name] = md
 		oneofs := map[string]int32{}
 		for _, fd := range m.Fields {
 			if fd.Oneof != "" {
@@ -183,11 +194,11 @@ func (f *File) Descriptor() *descriptorpb.FileDescriptorProto {
 				t := descriptorpb.FieldDescriptorProto_TYPE_MESSAGE
 				d.Type = &t
 				d.Label = &lblRep
-				d.TypeName = s(pkgDot + m.Name + "." + entryName)
+				d.TypeName = s(pkgDot + f.ProtoPath(m.Name) + "." + entryName)
 			case "enum", "message":
 				t := typeOf[fd.Kind]
 				d.Type = &t
-				d.TypeName = s(pkgDot + fd.Ref)
+				d.TypeName = s(pkgDot + f.ProtoPath(fd.Ref))
 			default:
 				t := typeOf[fd.Kind]
 				d.Type = &t
@@ -207,7 +218,14 @@ func (f *File) Descriptor() *descriptorpb.FileDescriptorProto {
 				d.OneofIndex = i32(idx)
 			}
 		}
-		fdp.MessageType = append(fdp.MessageType, md)
+		if m.Parent == "" {
+			fdp.MessageType = append(fdp.MessageType, md)
+		} else if p := built[m.Parent]; p != nil {
+			// the enclosing message is declared earlier in f.Messages
+			p.NestedType = append(p.NestedType, md)
+		} else {
+			panic("schema: message " + m.Name + " is declared before its parent " + m.Parent)
+		}
 	}
 	return fdp
 }
